@@ -144,19 +144,24 @@ def judge_finite(ctx, cls, desc, p_ref, lp, pr, ent, mode_idx, smp_idx, ss_idx, 
     # sample_and_log_prob returns the log-probability of the sample it returns
     sl, lps, ss_idx = np.asarray(sl, np.float64), np.asarray(lps, np.float64), np.asarray(ss_idx)
     ctx.monitor("sample_and_log_prob_pairs", len(sl))
-    inb = ss_idx >= 0
-    if not inb.all():
-        return ok  # already reported above; the pairs cannot be looked up in the support
+    inb = ss_idx >= 0  # pairs whose sample is outside the support were reported above
+    safe = np.where(inb, ss_idx, 0)
     with np.errstate(invalid="ignore"):
         d1 = np.where(sl == lps, 0.0, np.abs(sl - lps))
-        d2 = np.where(inb, np.where(sl == lp[np.where(inb, ss_idx, 0)], 0.0, np.abs(sl - lp[np.where(inb, ss_idx, 0)])), 0.0)
+        d2 = np.where(sl == lp[safe], 0.0, np.abs(sl - lp[safe]))
     d = np.maximum(np.where(np.isnan(d1), np.inf, d1), np.where(np.isnan(d2), np.inf, d2))
+    d = np.where(inb, d, 0.0)
     tol2 = 1e-5 + 1e-6 * np.abs(np.where(np.isfinite(sl), sl, 0))
     if np.any(d > tol2):
         i = int(np.argmax(d - tol2))
-        bad("sample-and-log-prob-inconsistent",
-            {"returned_log_prob": float(sl[i]), "log_prob_of_returned_sample": float(lps[i]),
-             "table_log_prob": float(lp[ss_idx[i]]) if inb[i] else None, "support_index": int(ss_idx[i])})
+        wit = {"sample_support_index": int(ss_idx[i]), "returned_log_prob": float(sl[i]),
+               "log_prob_of_returned_sample": float(lps[i]), "log_prob_of_same_value_as_int32": float(lp[ss_idx[i]])}
+        int8_wide = wrap_info is not None and wrap_info[0] > 128 and np.asarray(wrap_info[1]).dtype == np.int8
+        if int8_wide and sl[i] == -np.inf and lps[i] == -np.inf and np.isfinite(lp[ss_idx[i]]):
+            # the int8 sample is in the support, yet its log-probability comes back as -inf
+            bad("log-prob-of-int8-sample-minus-inf-above-128-classes", dict(wit, classes=wrap_info[0]))
+        else:
+            bad("sample-and-log-prob-inconsistent", wit)
     return ok
 
 
@@ -982,9 +987,417 @@ def u_squashednormal(ctx):
         ctx.require("entropy_vs_monte_carlo", 5)
 
 
-# @@PART4@@
+# --------------------------------------------------------------------------------------
+# diagonal (product) continuous laws
+# --------------------------------------------------------------------------------------
+
+G2 = 201   # nodes per axis of the 2-D quadrature grid
+N_PTS = 256
+
+
+def judge_nd(ctx, cls, comp_cls, desc, geoms, o, pts, grids2=None, entropy_error=None):
+    """C15 relations for a d-dimensional product law. geoms: per-dimension 1-D geometry (nodes/weights and,
+    for the plain normal, the density formula); o: real outputs (see make_nd); pts (P,d) sample points."""
+    from vlib.c15_helpers import ALPHA, EPS32, cumtrapz, ks_against_cdf, note_max, note_min, prob_exp_mismatch, trapz
+
+    D = len(geoms)
+    resolved = all(g["R"] >= R_MIN for g in geoms)
+    judged_global = resolved and all(g["full"] for g in geoms)
+    lp, pr = np.asarray(o["lp"], np.float64), np.asarray(o["pr"], np.float64)
+
+    def bad(key, extra):
+        d = dict(desc)
+        d.update(extra)
+        ctx.violation(f"{cls}-{key}", d)
+
+    exc, i = prob_exp_mismatch(pr, lp)
+    ctx.monitor("prob_vs_exp_logprob_points", len(lp))
+    if exc > 0:
+        bad("prob-not-exp-logprob", {"y": pts[i], "prob": pr[i], "log_prob": lp[i]})
+    # product law: log_prob == sum over independently constructed components
+    comp_lp = np.asarray(o["comp_lp"], np.float64)            # (P, D)
+    want = comp_lp.sum(axis=1)
+    cond = np.sum([g["slp_tol"](pts[:, j]) for j, g in enumerate(geoms)], axis=0)
+    tol = 2e-5 * D + 1e-5 * np.abs(want) + cond
+    err = np.abs(lp - want)
+    err = np.where(np.isnan(err), np.inf, err)
+    deciding = tol < 0.05
+    ctx.monitor("product_law_points", int(deciding.sum()))
+    if deciding.any():
+        note_max(ctx, "max_product_law_err_over_tol", np.max(err[deciding] / tol[deciding]))
+    if np.any(deciding & (err > tol)):
+        i = int(np.argmax(np.where(deciding, err - tol, -np.inf)))
+        bad("logprob-not-sum-of-components", {"y": pts[i], "got": lp[i], "want": want[i], "components": comp_lp[i]})
+    if geoms[0]["lp_ref"] is not None:
+        ref = np.sum([g["lp_ref"](pts[:, j].astype(np.float64)) for j, g in enumerate(geoms)], axis=0)
+        tolr = 2e-5 * D + 1e-5 * np.abs(ref)
+        ctx.monitor("logprob_vs_density_formula_points", len(ref))
+        e2 = np.where(np.isnan(lp), np.inf, np.abs(lp - ref))
+        note_max(ctx, "max_logprob_err_over_tol_continuous", np.max(e2 / tolr))
+        if np.any(e2 > tolr):
+            i = int(np.argmax(e2 - tolr))
+            bad("logprob-vs-definition", {"y": pts[i], "got": lp[i], "want": ref[i]})
+    # total mass on the 2-D grid
+    if grids2 is not None:
+        g1, g2 = grids2
+        prj = np.asarray(o["prj"], np.float64).reshape(G2, G2)
+        lpj = np.asarray(o["lpj"], np.float64).reshape(G2, G2)
+        exc, i = prob_exp_mismatch(prj, lpj)
+        ctx.monitor("prob_vs_exp_logprob_points", prj.size)
+        if exc > 0:
+            bad("prob-not-exp-logprob", {"grid_index": i, "prob": prj.ravel()[i], "log_prob": lpj.ravel()[i]})
+        integrand = np.where(np.isfinite(prj), prj, 0.0) * g1["jac"][:, None] * g2["jac"][None, :]
+        m1 = np.array([trapz(integrand[a, :], g2["h"]) for a in range(G2)])
+        m2 = np.array([trapz(integrand[:, b], g1["h"]) for b in range(G2)])
+        mass = trapz(m1, g1["h"])
+        marg = [(g1, cumtrapz(m1, g1["h"]), mass), (g2, cumtrapz(m2, g2["h"]), mass)]
+        if judged_global:
+            ctx.monitor("quadrature_mass_checked")
+            note_max(ctx, "max_abs_quadrature_mass_error", abs(mass - 1))
+            if not abs(mass - 1) <= 1e-3:
+                bad("mass-not-one", {"integral_of_prob_over_support_2d": mass})
+    else:
+        # marginal j of a product law = its independently constructed component (tied to the joint law by
+        # the product-law monitor above); integrate the component's real density
+        marg = []
+        cg = np.asarray(o["comp_cg"], np.float64)
+        for j, g in enumerate(geoms):
+            integ = np.where(np.isfinite(cg[j]), cg[j], 0.0) * g["jac"]
+            marg.append((g, cumtrapz(integ, g["h"]), trapz(integ, g["h"])))
+    # entropy
+    if o.get("ent") is not None:
+        ent = float(o["ent"])
+        ctx.monitor("entropy_defined_cases")
+        hs = float(np.sum(np.asarray(o["comp_ent"], np.float64)))
+        ctx.monitor("entropy_vs_components")
+        if not abs(ent - hs) <= 2e-5 * D + 1e-5 * abs(hs):
+            bad("entropy-not-sum-of-components", {"entropy": ent, "sum_of_component_entropies": hs})
+        if geoms[0]["ent_ref"] is not None:
+            hr = float(np.sum([g["ent_ref"] for g in geoms]))
+            if not abs(ent - hr) <= 2e-5 * D + 1e-5 * abs(hr):
+                bad("entropy-vs-definition", {"entropy": ent, "want": hr})
+        sl = np.asarray(o["sl"], np.float64)
+        if np.all(np.isfinite(sl)):
+            mc, se = -float(np.mean(sl)), float(np.std(sl, ddof=1) / np.sqrt(len(sl)))
+            ctx.monitor("entropy_vs_monte_carlo")
+            note_max(ctx, "max_entropy_mc_sigma", abs(ent - mc) / max(se, 1e-12))
+            if not abs(ent - mc) <= 5.5 * se + 1e-4 * (1 + abs(ent)):
+                bad("entropy-not-monte-carlo-neg-logprob", {"entropy": ent, "mc": mc, "se": se})
+        if grids2 is not None and judged_global:
+            with np.errstate(invalid="ignore"):
+                hq_i = np.where(prj > 0, prj * lpj, 0.0) * g1["jac"][:, None] * g2["jac"][None, :]
+            hq = -trapz(np.array([trapz(hq_i[a, :], g2["h"]) for a in range(G2)]), g1["h"])
+            ctx.monitor("entropy_vs_quadrature")
+            if not abs(ent - hq) <= 2e-3 * (1 + abs(hq)):
+                bad("entropy-not-neg-expected-logprob", {"entropy": ent, "minus_integral_p_log_p": hq})
+    elif entropy_error is not None:
+        ctx.monitor("entropy_declared_undefined")
+    # mode
+    m = np.asarray(o["mode"], np.float64)
+    ctx.monitor("mode_checked")
+    ulps = np.array([2 * EPS32 * (max(abs(g["lo"]), abs(g["hi"])) if g["lo"] is not None else 0.0) for g in geoms])
+    los = np.array([g["lo"] if g["lo"] is not None else -np.inf for g in geoms])
+    his = np.array([g["hi"] if g["hi"] is not None else np.inf for g in geoms])
+    if m.shape != (D,) or not np.all(np.isfinite(m)) or not np.all((m >= los - ulps) & (m <= his + ulps)):
+        bad("mode-outside-support", {"mode_value": m})
+    elif geoms[0]["lp_ref"] is not None and resolved:
+        pm = float(np.asarray(o["pr_mode"]))
+        if not pm >= np.nanmax(pr) * (1 - 1e-4):
+            bad("mode-not-most-probable", {"mode_value": m, "prob_at_mode": pm, "max_prob_seen": float(np.nanmax(pr))})
+    # samples
+    for name, smp in (("sample", o["smp"]), ("sample-and-log-prob", o["ss"])):
+        smp = np.asarray(smp, np.float64)
+        ctx.monitor("samples_support_checked", len(smp))
+        if smp.ndim != 2 or smp.shape[1] != D:
+            bad(f"{name}-shape", {"shape": smp.shape})
+            continue
+        if not np.all(np.isfinite(smp)):
+            bad(f"{name}-not-finite", {"count": int(np.sum(~np.isfinite(smp)))})
+            continue
+        outside = np.any((smp < los - ulps) | (smp > his + ulps), axis=1)
+        if outside.any():
+            bad(f"{name}-outside-support", {"count": int(outside.sum()), "of": len(smp), "example": smp[int(np.argmax(outside))]})
+            continue
+        if judged_global:
+            for j, (g, F, mass_j) in enumerate(marg):
+                if not abs(mass_j - 1) < 0.5:
+                    continue
+                u = np.interp(g["to_x"](smp[:, j]), g["xg"], F / mass_j, left=0.0, right=1.0)
+                dks, pval = ks_against_cdf(u)
+                ctx.monitor("ks_tests")
+                note_min(ctx, "min_ks_pvalue", pval)
+                if pval < ALPHA:
+                    bad(f"{name}s-do-not-follow-density", {"dimension": j, "ks_D": dks, "p": pval, "draws": len(smp)})
+            if D >= 2:
+                # independence of the components: Pearson correlation of every pair, r*sqrt(n) ~ N(0,1)
+                xs = np.stack([g["to_x"](smp[:, j]) for j, g in enumerate(geoms)], axis=1)
+                if np.all(np.isfinite(xs)):
+                    r = np.corrcoef(xs, rowvar=False)
+                    zmax = float(np.max(np.abs(r[np.triu_indices(D, 1)])) * np.sqrt(len(smp)))
+                    ctx.monitor("independence_tests")
+                    note_max(ctx, "max_pair_correlation_sigma", zmax)
+                    if zmax > 5.5 + 0.5 * np.log(D * (D - 1) / 2):  # Bonferroni slack over the pairs
+                        bad(f"{name}-components-not-independent", {"max_abs_r_times_sqrt_n": zmax, "draws": len(smp)})
+    # sample_and_log_prob
+    ss, sl, lps = (np.asarray(o[k], np.float64) for k in ("ss", "sl", "lps"))
+    if ss.ndim == 2 and ss.shape[1] == D:
+        tol = 1e-4 * D + 1e-5 * np.abs(sl) + np.sum([g["slp_tol"](ss[:, j]) for j, g in enumerate(geoms)], axis=0)
+        deciding = tol < 0.05
+        ctx.monitor("sample_and_log_prob_pairs", int(deciding.sum()))
+        err = np.where(np.isnan(sl - lps), np.inf, np.abs(sl - lps))
+        if deciding.any():
+            note_max(ctx, "max_slp_err_over_tol", np.max(err[deciding] / tol[deciding]))
+        if np.any(deciding & (err > tol)):
+            i = int(np.argmax(np.where(deciding, err - tol, -np.inf)))
+            bad("sample-and-log-prob-inconsistent", {"sample": ss[i], "returned_log_prob": sl[i],
+                                                     "log_prob_of_returned_sample": lps[i], "tol": tol[i]})
+
+
+def make_nd(build, comp, D, s, K, ent_state, with_grid):
+    import jax
+    import jax.numpy as jnp
+    from jax import random as jr
+
+    def one(loc, sc, hi, lo, pts, cg, jg, key):
+        d = build(loc, sc, hi, lo)
+        comps = [comp(loc[i], sc[i], hi, lo, i) for i in range(D)]
+        ks = jr.split(key, s + K)
+        ss, sl = jax.vmap(d.sample_and_log_prob)(ks[s:])
+        m = d.mode()
+        out = dict(lp=jax.vmap(d.log_prob)(pts), pr=jax.vmap(d.prob)(pts), mode=m, pr_mode=d.prob(m),
+                   comp_lp=jnp.stack([jax.vmap(c.log_prob)(pts[:, i]) for i, c in enumerate(comps)], axis=-1),
+                   comp_cg=jnp.stack([jax.vmap(c.prob)(cg[i]) for i, c in enumerate(comps)]),
+                   smp=jax.vmap(d.sample)(ks[:s]), ss=ss, sl=sl, lps=jax.vmap(d.log_prob)(ss))
+        if with_grid:
+            out["lpj"], out["prj"] = jax.vmap(d.log_prob)(jg), jax.vmap(d.prob)(jg)
+        try:
+            out["ent"] = d.entropy()
+            out["comp_ent"] = jnp.stack([c.entropy() for c in comps])
+            ent_state["err"] = None
+        except NotImplementedError as e:
+            out.pop("ent", None)
+            ent_state["err"] = str(e)[:120]
+        except Exception as e:
+            out.pop("ent", None)
+            ent_state["err"] = None
+            ent_state["other"] = f"{type(e).__name__}: {str(e)[:200]}"
+        return out
+    return one
+
+
+def nd_inputs(rng, geoms, geoms2):
+    """Sample points (inside the resolved region of every dimension), per-dimension 1-D grids, 2-D grid."""
+    D = len(geoms)
+    pts = np.stack([g["pt"](rng, N_PTS) for g in geoms], axis=1).astype(np.float32)
+    cg = np.stack([g["yg"] for g in geoms])
+    if geoms2 is not None:
+        a, b = np.meshgrid(geoms2[0]["yg"], geoms2[1]["yg"], indexing="ij")
+        jg = np.stack([a.ravel(), b.ravel()], axis=1).astype(np.float32)
+    else:
+        jg = np.zeros((1, D), np.float32)
+    return pts, cg, jg
+
+
+def _with_pt_normal(g, loc, sc):
+    g["pt"] = lambda rng, n: float(loc) + float(sc) * rng.normal(0, 2, size=n)
+    return g
+
+
+def _with_pt_squashed(g, loc, sc, lo, hi):
+    from vlib.c15_helpers import sigmoid64
+
+    X, _ = squash_region(lo, hi)
+
+    def pt(rng, n):
+        x = np.clip(float(loc) + float(sc) * rng.normal(0, 1.5, size=n), -X, X)
+        return float(lo) + (float(hi) - float(lo)) * sigmoid64(x)
+    g["pt"] = pt
+    return g
+
+
+def u_mvn(ctx):
+    import equinox as eqx
+    import jax
+    import jax.numpy as jnp
+    from jax import random as jr
+    from lerax.distribution import MultivariateNormalDiag, Normal
+    from vlib.c15_helpers import normal_logpdf64
+
+    S, K = ctx.n(S_QUICK, S_THOROUGH), 4096
+    ent_state = {}
+    build = lambda loc, sc, hi, lo: MultivariateNormalDiag(loc, sc)  # noqa: E731
+    comp = lambda l, s, hi, lo, i: Normal(l, s)  # noqa: E731
+
+    def geoms_for(prm, m=M_GRID):
+        global M_GRID
+        old, M_GRID = M_GRID, m
+        try:
+            return [_with_pt_normal(normal_geom(l, s), l, s) for l, s in prm]
+        finally:
+            M_GRID = old
+
+    def judge(D, prm, geoms, geoms2, o, pts, mode):
+        desc = {"class": "MultivariateNormalDiag", "d": D, "loc": [float(p[0]) for p in prm], "scale": [float(p[1]) for p in prm], "mode": mode}
+        nt = all(g["R"] >= R_MIN for g in geoms)
+        ctx.case(desc, nontrivial=nt, cls=f"MultivariateNormalDiag/d{D}/{'resolved' if nt else 'coarse'}/{mode}")
+        ctx.monitor("mvn_cases")
+        judge_nd(ctx, "mvn", "normal", desc, geoms, o, pts, grids2=geoms2)
+
+    B = 8
+    for D in (2, 1, 3, 6):
+        f = eqx.filter_jit(jax.vmap(make_nd(build, comp, D, S, K, ent_state, D == 2)))
+        for rep in range(ctx.n(2, 20) if D != 2 else ctx.n(3, 24)):
+            prms = [[gen_normal_params(ctx.rng, int(ctx.rng.integers(0, 3))) for _ in range(D)] for _ in range(B)]
+            geos = [geoms_for(p) for p in prms]
+            geos2 = [geoms_for(p, G2) for p in prms] if D == 2 else [None] * B
+            ins = [nd_inputs(ctx.rng, geos[b], geos2[b]) for b in range(B)]
+            loc = jnp.asarray([[p[0] for p in prm] for prm in prms])
+            sc = jnp.asarray([[p[1] for p in prm] for prm in prms])
+            try:
+                out = jax.tree.map(np.asarray, f(loc, sc, jnp.zeros(B), jnp.zeros(B), *(jnp.asarray(np.stack([i[k] for i in ins])) for k in range(3)),
+                                                 jr.split(ctx.key(D * 100 + rep), B)))
+            except Exception as e:
+                _raises(ctx, "mvn", "jit-vmap", e, {"d": D})
+                break
+            for b in range(B):
+                judge(D, prms[b], geos[b], geos2[b], jax.tree.map(lambda v: v[b], out), ins[b][0], "jit+vmap")
+    # eager; also the documented defaults loc=None (zeros) and scale_diag=None (ones)
+    for b in range(ctx.n(4, 12)):
+        D = 3
+        prm = [gen_normal_params(ctx.rng, 1) for _ in range(D)]
+        form = ["both", "loc-none", "scale-none", "both"][b % 4]
+        if form == "loc-none":
+            prm = [(np.float32(0), s) for _, s in prm]
+        if form == "scale-none":
+            prm = [(l, np.float32(1)) for l, _ in prm]
+        geoms = geoms_for(prm)
+        pts, cg, jg = nd_inputs(ctx.rng, geoms, None)
+        loc, sc = jnp.asarray([p[0] for p in prm]), jnp.asarray([p[1] for p in prm])
+        bld = {"both": build, "loc-none": lambda l, s, h, lo: MultivariateNormalDiag(scale_diag=s),
+               "scale-none": lambda l, s, h, lo: MultivariateNormalDiag(loc=l)}[form]
+        try:
+            o = jax.tree.map(np.asarray, make_nd(bld, comp, D, 4096, K, ent_state, False)(
+                loc, sc, 0.0, 0.0, jnp.asarray(pts), jnp.asarray(cg), jnp.asarray(jg), ctx.key(5000 + b)))
+        except Exception as e:
+            _raises(ctx, "mvn", f"eager-{form}", e, {"loc": loc, "scale": sc})
+            continue
+        judge(D, prm, geoms, None, o, pts, f"eager-{form}")
+    ctx.require("mvn_cases", 20)
+    ctx.require("quadrature_mass_checked", 5)
+    ctx.require("product_law_points", 1000)
+    ctx.require("ks_tests", 10)
+    ctx.require("independence_tests", 5)
+    ctx.require("entropy_vs_monte_carlo", 10)
+    ctx.require("sample_and_log_prob_pairs", 1000)
+
+
+def u_squashedmvn(ctx):
+    import equinox as eqx
+    import jax
+    import jax.numpy as jnp
+    from jax import random as jr
+    from lerax.distribution import SquashedMultivariateNormalDiag, SquashedNormal
+
+    S, K = ctx.n(S_QUICK, S_THOROUGH), 4096
+    ent_state = {}
+
+    def builders(bform):
+        if bform == "vector":   # per-dimension bounds
+            return (lambda loc, sc, hi, lo: SquashedMultivariateNormalDiag(loc, sc, high=hi, low=lo),
+                    lambda l, s, hi, lo, i: SquashedNormal(l, s, high=hi[i], low=lo[i]))
+        if bform == "scalar":   # one 0-d bound broadcast over the dimensions
+            return (lambda loc, sc, hi, lo: SquashedMultivariateNormalDiag(loc, sc, high=hi, low=lo),
+                    lambda l, s, hi, lo, i: SquashedNormal(l, s, high=hi, low=lo))
+        return (lambda loc, sc, hi, lo: SquashedMultivariateNormalDiag(loc, sc),  # default bounds [-1, 1]
+                lambda l, s, hi, lo, i: SquashedNormal(l, s, high=jnp.array(1.0), low=jnp.array(-1.0)))
+
+    def geoms_for(prm, bnd, m=M_GRID):
+        global M_GRID
+        old, M_GRID = M_GRID, m
+        try:
+            return [_with_pt_squashed(squashed_geom(l, s, lo, hi), l, s, lo, hi) for (l, s), (lo, hi) in zip(prm, bnd)]
+        finally:
+            M_GRID = old
+
+    def gen_case(D, bform, i):
+        if bform == "vector":
+            bnd = [gen_bounds(ctx.rng, int(ctx.rng.integers(0, 30))) for _ in range(D)]
+        elif bform == "scalar":
+            bnd = [gen_bounds(ctx.rng, int(ctx.rng.integers(0, 30)))] * D
+        else:
+            bnd = [(np.float32(-1), np.float32(1))] * D
+        sat = (i % 4 == 3)
+        prm = [gen_squashed_params(ctx.rng, 2 if (sat and j == 0) else 0, *bnd[j]) for j in range(D)]
+        return prm, bnd
+
+    def judge(D, bform, prm, bnd, geoms, geoms2, o, pts, mode):
+        desc = {"class": "SquashedMultivariateNormalDiag", "d": D, "bounds_form": bform, "loc": [float(p[0]) for p in prm],
+                "scale": [float(p[1]) for p in prm], "low": [float(b[0]) for b in bnd], "high": [float(b[1]) for b in bnd], "mode": mode}
+        nt = all(g["R"] >= R_MIN and g["full"] for g in geoms)
+        kind = "resolved" if nt else ("saturating" if not all(g["full"] for g in geoms) else "coarse")
+        ctx.case(desc, nontrivial=nt, cls=f"SquashedMultivariateNormalDiag/d{D}/{bform}-bounds/{kind}/{mode}")
+        ctx.monitor("squashedmvn_cases")
+        if "other" in ent_state:
+            ctx.violation("squashedmvn-entropy-raises", {"case": desc, "error": ent_state.pop("other")})
+        judge_nd(ctx, "squashedmvn", "squashednormal", desc, geoms, o, pts, grids2=geoms2, entropy_error=ent_state.get("err"))
+
+    def arr(bform, bnd, k):
+        return np.float32(bnd[0][k]) if bform != "vector" else np.array([b[k] for b in bnd], np.float32)
+
+    B = 8
+    for D, bform in ((2, "vector"), (2, "scalar"), (3, "vector"), (6, "vector"), (1, "vector"), (3, "scalar")):
+        if ctx.quick and (D, bform) in ((1, "vector"), (3, "scalar")):
+            continue
+        bld, cmp_ = builders(bform)
+        f = eqx.filter_jit(jax.vmap(make_nd(bld, cmp_, D, S, K, ent_state, D == 2)))
+        for rep in range(ctx.n(2, 16) if D != 2 else ctx.n(3, 20)):
+            cases = [gen_case(D, bform, b) for b in range(B)]
+            geos = [geoms_for(*c) for c in cases]
+            geos2 = [geoms_for(*c, G2) for c in cases] if D == 2 else [None] * B
+            ins = [nd_inputs(ctx.rng, geos[b], geos2[b]) for b in range(B)]
+            loc = jnp.asarray([[p[0] for p in c[0]] for c in cases])
+            sc = jnp.asarray([[p[1] for p in c[0]] for c in cases])
+            hi = jnp.asarray(np.stack([arr(bform, c[1], 1) for c in cases]))
+            lo = jnp.asarray(np.stack([arr(bform, c[1], 0) for c in cases]))
+            try:
+                out = jax.tree.map(np.asarray, f(loc, sc, hi, lo, *(jnp.asarray(np.stack([i[k] for i in ins])) for k in range(3)),
+                                                 jr.split(ctx.key(D * 100 + rep + (50 if bform == "scalar" else 0)), B)))
+            except Exception as e:
+                _raises(ctx, "squashedmvn", "jit-vmap", e, {"d": D, "bounds_form": bform})
+                break
+            for b in range(B):
+                judge(D, bform, *cases[b], geos[b], geos2[b], jax.tree.map(lambda v: v[b], out), ins[b][0], "jit+vmap")
+    for b in range(ctx.n(3, 12)):
+        D = 2 + b % 2
+        bform = ["default", "vector", "scalar"][b % 3]
+        prm, bnd = gen_case(D, bform, 0)
+        geoms = geoms_for(prm, bnd)
+        pts, cg, jg = nd_inputs(ctx.rng, geoms, None)
+        bld, cmp_ = builders(bform)
+        try:
+            o = jax.tree.map(np.asarray, make_nd(bld, cmp_, D, 4096, K, ent_state, False)(
+                jnp.asarray([p[0] for p in prm]), jnp.asarray([p[1] for p in prm]), jnp.asarray(arr(bform, bnd, 1)),
+                jnp.asarray(arr(bform, bnd, 0)), jnp.asarray(pts), jnp.asarray(cg), jnp.asarray(jg), ctx.key(5000 + b)))
+        except Exception as e:
+            _raises(ctx, "squashedmvn", f"eager-{bform}-bounds", e, {"loc": prm, "bounds": bnd})
+            continue
+        judge(D, bform, prm, bnd, geoms, None, o, pts, "eager")
+    try:
+        SquashedMultivariateNormalDiag(jnp.zeros(2), jnp.ones(2), high=2.0, low=-2.0)
+        ctx.notes["python_float_bounds"] = "accepted"
+    except Exception as e:
+        ctx.notes["python_float_bounds"] = f"rejected: {type(e).__name__}: {str(e)[:80]}"
+    ctx.notes["entropy"] = ent_state.get("err") or "defined"
+    ctx.require("squashedmvn_cases", 20)
+    ctx.require("quadrature_mass_checked", 5)
+    ctx.require("product_law_points", 1000)
+    ctx.require("ks_tests", 10)
+    ctx.require("independence_tests", 5)
+    ctx.require("sample_and_log_prob_pairs", 1000)
+    if ent_state.get("err") is None:
+        ctx.require("entropy_vs_monte_carlo", 5)
 
 
 def run_unit(name, ctx):
-    {"normal": u_normal, "squashednormal": u_squashednormal, "categorical": u_categorical, "bernoulli": u_bernoulli, "multicat-flat": lambda c: u_multicategorical(c, "flat"),
+    {"mvn": u_mvn, "squashedmvn": u_squashedmvn, "normal": u_normal, "squashednormal": u_squashednormal, "categorical": u_categorical, "bernoulli": u_bernoulli, "multicat-flat": lambda c: u_multicategorical(c, "flat"),
      "multicat-seq": lambda c: u_multicategorical(c, "seq")}[name](ctx)
